@@ -107,7 +107,9 @@ impl NetworkBehaviour for Behaviour {
                     error @ (DialError::Transport(_)
                     | DialError::Denied { .. }
                     | DialError::NoAddresses
-                    | DialError::WrongPeerId { .. }),
+                    | DialError::WrongPeerId { .. }
+                    | DialError::LocalPeerId { .. }
+                    | DialError::Aborted),
                 ..
             }) => {
                 let reason = error.to_string(); // We can only forward the string repr but it is better than nothing.
